@@ -484,12 +484,26 @@ def drive_machine(ctx, prop, stratum, n):
             suppress_health_check=list(HealthCheck),
         )
 
+    import hypothesis.errors as _he
+
+    flaky = False
     try:
         run_state_machine_as_test(seed(sd)(Machine), settings=mk((Phase.generate,), n))
         return None
     except Violation:
         pass
+    except getattr(_he, "Flaky", ()) as e:
+        # Hypothesis re-executes a failing history and found it behaving differently the second time.  The
+        # machine draws nothing from outside Hypothesis, so when a triaged failure of the library is on record the
+        # difference comes from state the library kept between the two executions; that failure is reported as
+        # it stands (no shrinking: the shrinker needs repeatable executions).  Without a recorded failure the
+        # inconsistency is the harness's own and stays a harness error.
+        if ctx.last_fail is None:
+            raise
+        flaky = True
     first = ctx.last_fail
+    if flaky:
+        return first
     if first is not None and first[1].facts and first[1].facts.get("hang"):
         return first
     was = ctx.counting
